@@ -409,12 +409,19 @@ def classify(prog: Program) -> Dict[str, Any]:
     }
 
 
-def deps(eq: Eq) -> List[Tuple[str, int]]:
-    """(name, offset) pairs read by the equation's right-hand side (C20)."""
+def deps(eq: Eq, into_verbatim: bool = False) -> List[Tuple[str, int]]:
+    """(name, offset) pairs read by the equation's right-hand side (C20).  With `into_verbatim` the reads a verbatim
+    fragment denotes are included (the parser cannot see them, the evaluation performs them)."""
     out: List[Tuple[str, int]] = []
-    for n in walk(eq.expr):
-        if isinstance(n, Var) and (n.name, n.off) not in out:
-            out.append((n.name, n.off))
+
+    def visit(e):
+        for n in walk(e):
+            if isinstance(n, Var) and (n.name, n.off) not in out:
+                out.append((n.name, n.off))
+            elif into_verbatim and isinstance(n, Verb) and n.expr is not None:
+                visit(n.expr)
+
+    visit(eq.expr)
     return out
 
 
